@@ -64,14 +64,14 @@ prop('C05', 'panicking destructor: no second drop, buffer stays valid', e1_confi
 prop('C06', 'panic in user code leaves a valid buffer, nothing leaked', e1_configs=[], bounds=E2_BOUNDS,
      e2=[dict(tag='std', features=['std', 'alloc'],
               jobs=e2_jobs([(s, 2, QN5) for s in C06_SCENS], [(s, 2, TN5) for s in C06_SCENS]))])
-prop('C07', 'all views agree; mutable views alias exactly those elements', stubs=[ROT_STUB], code_failures_count=False)
-prop('C08', 'iterators obey the double-ended exact-size protocol', code_failures_count=False)
+prop('C07', 'all views agree; mutable views alias exactly those elements', stubs=[ROT_STUB])
+prop('C08', 'iterators obey the double-ended exact-size protocol')
 prop('C09', 'drain removes exactly the range, keeps the rest in order')
-prop('C10', 'leaking a drain is safe', code_failures_count=False)
+prop('C10', 'leaking a drain is safe')
 prop('C11', 'panics exactly when documented, otherwise total', bounds=dict(E1=E1_BOUNDS, E2=E2_BOUNDS),
      e2=[dict(tag='std', features=['std', 'alloc'], jobs=e2_jobs([(s, 0, QN5) for s in C11_SCENS], [(s, 0, TN5) for s in C11_SCENS]))])
-prop('C12', 'constructors and conversions', code_failures_count=False)
-prop('C13', 'Eq/Ord/Hash/Debug depend only on logical contents', code_failures_count=False)
+prop('C12', 'constructors and conversions')
+prop('C13', 'Eq/Ord/Hash/Debug depend only on logical contents')
 prop('C14', 'byte-stream I/O')
 prop('C16', 'embedded-io(-async) == std::io', e1_configs=['eio', 'eio-async', 'eio-both'])
 prop('C17', 'no operation allocates; builds without std/alloc', e1_configs=['nodefault', 'alloc', 'default'], only_desc='ALLOCATION', build_clause=True,
@@ -81,7 +81,7 @@ C18_E2 = [(s, 0, C18_N) for s in sorted(set(C05_SCENS + C06_SCENS + C11_SCENS))]
 C18_E2_T = [(s, 0, [0, 1, 2, 3, 4]) for s in sorted(set(C05_SCENS + C06_SCENS + C11_SCENS))] + [('FROM_ARRAY', 1, FA_Q)]
 prop('C18', 'unstable feature does not change behaviour', e1_configs=[], differential=('default', 'unstable'), stubs=[ROT_STUB],
      bounds=dict(E1=E1_BOUNDS, E2=E2_BOUNDS, capacities_quick=C18_N),
-     e2=[dict(tag='unstable', features=['std', 'alloc', 'unstable'], baseline=dict(tag='std', features=['std', 'alloc'], baseline=None),
+     e2=[dict(tag='unstable', features=['std', 'alloc', 'unstable'], order=True, baseline=dict(tag='std', features=['std', 'alloc'], baseline=None),
               jobs=dict(quick=C18_E2, thorough=C18_E2_T))])
 prop('C19', 'zero-sized elements and extreme capacities', bounds=dict(E1=E1_BOUNDS, E2='add_mod/sub_mod: all 64-bit x, y <= m, m > 0 (no bound on N)'),
      e2=[dict(tag='std', features=['std', 'alloc'], unwind=lambda n, m: 4, timeout=dict(quick=900, thorough=3600),
